@@ -85,7 +85,7 @@ CLASS = {
     "]": "rbracket", "{": "lbrace", "}": "rbrace", "(": "lparen", ")": "rparen", "&": "amp",
     "|": "pipe", ";": "semi", "<": "lt", ">": "gt", "!": "bang", "#": "hash", "=": "equals",
     "-": "dash", ",": "comma", "@": "at", "é": "nonascii", "\U0001f642": "astral",
-    "/": "slash", ".": "dot",
+    "/": "slash", ".": "dot", ":": "colon",
 }  # fmt: skip
 
 ENV_A = "a* b"  # value of $a : a glob that matches files in cwd + a blank
@@ -99,7 +99,7 @@ FORMS = (
     "macro", "macroarg", "macrotail",
 )  # fmt: skip
 MACRO_FORMS = ("macro", "macroarg", "macrotail")
-ALL_FORMS = FORMS + ("mltsq", "mltdq", "mlftsq", "mlrtdq") + ("envplain", "envbrace", "envat", "envdq", "envdqmid", "envdq2", "envsq", "envf", "envgluesuf", "envgluepre", "litraw", "litat")
+ALL_FORMS = FORMS + ("tplain",) + ("mltsq", "mltdq", "mlftsq", "mlrtdq") + ("envplain", "envbrace", "envat", "envdq", "envdqmid", "envdq2", "envsq", "envf", "envgluesuf", "envgluepre", "litraw", "litat")
 # sub-forms that are one syntactic form of the statement share the <form> part of the key
 FAMILY = {"mltsq": "mltriple", "mltdq": "mltriple", "envdqmid": "envdq", "envdq2": "envdq", "envgluesuf": "envglue", "envgluepre": "envglue", "gluepre": "glue", "gluesuf": "glue", "glueboth": "glue", "gluelist": "glue", "macroarg": "macro", "macrotail": "macro", "tsq": "triple", "tdq": "triple", "ffield": "f", "fval": "f"}
 # second members of a form family: in the quick tier only for length<=1 values and the probes
@@ -207,6 +207,30 @@ def enumerate_ml_values(maxlines):
         vals.extend(ML(t) for t in itertools.product(ML_TOK, repeat=n))
     if maxlines < 4:
         vals.extend(ML(("P", b, c, "P")) for b in ML_TOK for c in ML_TOK)
+    return vals
+
+
+# ---------------------------------------------------------------- part E: several `=` and a `~`
+# The one `~` rewriting a word / non-raw literal may undergo (comment in tools.expand_path, bash):
+# a leading `~`, and a `~` "immediately following a ':' or the FIRST '='".  Values: every string of
+# <= 5 characters over {a = ~ : /} with at least two `=` and a `~`; expected strictly by that rule.
+TW_ALPHABET = "a=~:/"
+TW_FORMS = ("tplain", "sq", "dq", "f", "raw", "at")
+
+
+class TW(str):
+    """A part-E value (a str subclass so that it is told from part A)."""
+
+    __slots__ = ()
+
+
+def enumerate_tilde_words(maxlen=5):
+    vals = []
+    for n in range(3, maxlen + 1):
+        for tup in itertools.product(TW_ALPHABET, repeat=n):
+            w = "".join(tup)
+            if w.count("=") >= 2 and "~" in w:
+                vals.append(TW(w))
     return vals
 
 
@@ -358,6 +382,8 @@ def render_arg(form, v, pos="mid"):
     the documented meaning is not 'this literal text'."""
     if form == "plain":
         return v if _plain_ok(v, pos) else None
+    if form == "tplain":  # part E: a plain word over {a = ~ : /}
+        return str(v) if v and pos == "mid" else None
     if form == "sq":
         return "'" + _esc(v, "'") + "'"
     if form == "dq":
@@ -480,7 +506,7 @@ def render_line(form, pos, v, cmd):
 def self_check(form, v):
     """The generated literal must denote `v` in plain Python (the quoting function is part of the
     harness, so a mistake there is a tool error, never a finding)."""
-    if form == "plain" or form in ENV_FORMS or form in ML_FORMS or form.startswith(("at", "glue", "macro")):
+    if form in ("plain", "tplain") or form in ENV_FORMS or form in ML_FORMS or form.startswith(("at", "glue", "macro")):
         return
     a = render_arg(form, v)
     if a is None:
@@ -589,6 +615,15 @@ def ref_tilde(s, home):
     return outs
 
 
+def ref_tilde_strict(s, home):
+    """The rule as written above tools.expand_path: leading `~`, `~` right after the FIRST `=` and
+    after a `:` behind it; nothing else."""
+    pre, eq, post = s.partition("=")
+    if not eq:
+        return _tilde_lead(s, home)
+    return _tilde_lead(pre, home) + "=" + ":".join(_tilde_lead(p, home) for p in post.split(":"))
+
+
 def ref_expand(s, expand_env, env, home):
     """Set of values the docs allow for a non-raw string literal / plain word with Python value s."""
     cands = ref_envvars(s, env) if expand_env else {s}
@@ -601,6 +636,8 @@ def ref_expand(s, expand_env, env, home):
 def expected_args(form, v, expand_env, env, home):
     """List (one entry per expected argument) of sets of allowed values."""
     ex = lambda s: ref_expand(s, expand_env, env, home)  # noqa: E731
+    if isinstance(v, TW) and form in ("tplain", "sq", "dq", "f"):
+        return [{ref_tilde_strict(str(v), home)}]
     if form in ("plain", "sq", "dq", "tsq", "tdq", "f"):
         return [ex(v)]
     if form == "ffield":
@@ -847,6 +884,8 @@ def _plan_for(v, thorough):
     """Which (form, position, $EXPAND_ENV_VARS, delivery paths) are executed for value v.  A case
     that fails on the paths listed here is re-run on the remaining paths (see _check_value), so
     every reported failure carries the observation of all delivery paths."""
+    if isinstance(v, TW):  # part E: several `=` and a `~`
+        return [(form, "mid", True, ("u", "lu") if form in ("tplain", "dq", "raw") else ("u",)) for form in TW_FORMS]
     if isinstance(v, ML):  # part D: a literal over several physical lines
         plan = []
         for form in ML_FORMS:
@@ -924,7 +963,7 @@ def _check_value(v):
     fails = []
     evals = cases = 0
     by_path = dict.fromkeys(PATHS, 0)
-    by_kind = {"mid": 0, "E0": 0, "pos": 0, "env": 0, "kw": 0, "ml": 0}
+    by_kind = {"mid": 0, "E0": 0, "pos": 0, "env": 0, "kw": 0, "ml": 0, "tw": 0}
     for form, pos, e1, paths in _plan_for(v, _THOROUGH):
         if pos == "mid" and e1:
             self_check(form, _text(v))
@@ -932,7 +971,7 @@ def _check_value(v):
         if r is None:
             continue
         cases += 1
-        by_kind["ml" if isinstance(v, ML) else "kw" if isinstance(v, KW) else "env" if form in ENV_FORMS else "E0" if not e1 else ("mid" if pos == "mid" else "pos")] += 1
+        by_kind["tw" if isinstance(v, TW) else "ml" if isinstance(v, ML) else "kw" if isinstance(v, KW) else "env" if form in ENV_FORMS else "E0" if not e1 else ("mid" if pos == "mid" else "pos")] += 1
         exp = r["exp"]
         hung = any(isinstance(o, tuple) and o[0] == "hang" for o in r["obs"].values())
         if len(paths) < len(PATHS) and not hung and any(not matches(o, exp) for o in r["obs"].values()):
@@ -1028,8 +1067,10 @@ def run(ctx):
     ctx.log(f"{len(kw_values)} words around the keywords {list(KEYWORDS)}")
     ml_values = enumerate_ml_values(ctx.pick(3, 4))
     ctx.log(f"{len(ml_values)} multi-line literals (1..{ctx.pick(3, 4)} lines of {len(ML_TOK)} kinds" + ("" if ctx.thorough else " + 36 four-line ones") + f") x {len(ML_FORMS)} forms")
+    tw_values = enumerate_tilde_words()
+    ctx.log(f"{len(tw_values)} words of <= 5 characters over {TW_ALPHABET!r} with two or more `=` and a `~`")
     n_a = len(values)
-    values = values + env_values + kw_values + ml_values
+    values = values + env_values + kw_values + ml_values + tw_values
     res = common.pmap(_check_value, values, ctx.jobs, chunk=1, init=_init_worker, seed=ctx.seed)
     fails = [f for r in res for f in r["fails"]]
     evals = sum(r["evals"] for r in res)
@@ -1046,7 +1087,7 @@ def run(ctx):
         ctx.violation(
             key=key,
             clause="argv delivered == argv written",
-            case={"form": f["form"], "pos": f["pos"], "expand_env_vars": f["e1"], "value": list(f["v"]) if isinstance(f["v"], tuple) else f["v"], "value_kind": "ml" if isinstance(f["v"], ML) else "kw" if isinstance(f["v"], KW) else "env" if isinstance(f["v"], tuple) else "str", "paths": f["ran"], "failing_paths": f["bad"], "source": f["src"], "minimal_value": list(minimal) if isinstance(minimal, tuple) else minimal},
+            case={"form": f["form"], "pos": f["pos"], "expand_env_vars": f["e1"], "value": list(f["v"]) if isinstance(f["v"], tuple) else f["v"], "value_kind": "tw" if isinstance(f["v"], TW) else "ml" if isinstance(f["v"], ML) else "kw" if isinstance(f["v"], KW) else "env" if isinstance(f["v"], tuple) else "str", "paths": f["ran"], "failing_paths": f["bad"], "source": f["src"], "minimal_value": list(minimal) if isinstance(minimal, tuple) else minimal},
             observed=f["obs"],
             expected=f["exp"],
             note="expected = list of arguments, each with the set of values the documentation allows",
@@ -1072,7 +1113,7 @@ def run(ctx):
                 k += j + 1
                 break
     by_path = {p: sum(r["by_path"][p] for r in res) for p in PATHS}
-    by_kind = {k: sum(r["by_kind"][k] for r in res) for k in ("mid", "E0", "pos", "env", "kw", "ml")}
+    by_kind = {k: sum(r["by_kind"][k] for r in res) for k in ("mid", "E0", "pos", "env", "kw", "ml", "tw")}
     if ctx.thorough:
         plan_txt = f"length<=2 and probes: middle position on all six delivery paths, $EXPAND_ENV_VARS=False and the 4 other positions on the unthreaded alias (length<=1 and the probes: on the three direct paths, $EXPAND_ENV_VARS=False also through the list alias); length 3: middle position on the unthreaded alias, plus with $EXPAND_ENV_VARS=False and (forms raw, at, atlist, macro) through the list alias when the value contains $ or ~, without the forms {list(QUICK_TINY_ONLY)}"
     else:
@@ -1080,6 +1121,7 @@ def run(ctx):
     plan_txt += f"; part B: variable Q set to every non-empty sequence of <= {maxlen} of the tokens {list(VTOKENS)} ($W='{ENV_W}', files matching the globs present) and used as {[a for a, _, _ in ENV_FORMS.values()]} (%s = the same text written literally, expected verbatim) on the unthreaded alias directly and through the list alias (single tokens: all six paths), expected = the value substituted verbatim exactly once, 3 s alarm per execution"
     plan_txt += f"; part C: {len(kw_values)} words of <= {3 if ctx.thorough else 2} tokens over a keyword K and {list(KDECOR)} that contain K, for K in {list(KEYWORDS)}" + ("" if ctx.thorough else f" plus the three-token shapes {[''.join(t) for t in KSHAPES3]}") + f", as a plain word (bare and/or excepted) in the positions {list(KW_POSITIONS)} (bef*/aft* = directly before/after a real `and` / `&&`: two commands written, exactly two must run; otherwise exactly one) and in the forms {list(FORMS if ctx.thorough else KW_FORMS_QUICK)}"
     plan_txt += f"; part D: literals written over 1..{ctx.pick(3, 4)} physical lines, every sequence of the line kinds {ML_LINES} (Q = a line with the other triple quote)" + ("" if ctx.thorough else " plus the 36 four-line sequences plain,x,y,plain; three-line sequences only as \"\"\"...\"\"\"") + f", in the forms {dict(ML_FORMS)} where Python accepts the literal (raw: without the backslash lines, see the known finding), as the middle argument (<=2 lines: also real child and list alias), with the command continued after the literal by backslash-newline, and by backslash-newline + a comment-only line" + (", and as first / last argument" if ctx.thorough else "") + "; expected = the Python value of the literal"
+    plan_txt += f"; part E: the {len(tw_values)} strings of 3..5 characters over {TW_ALPHABET!r} with at least two `=` and a `~`, as a plain word, in '..', \"..\", f'..' (expected strictly by the rule written above tools.expand_path: leading ~, ~ after the FIRST = and after : behind it) and in r'..' / @() (verbatim), middle position, unthreaded alias (plain, dq, raw also through the list alias)"
     ctx.coverage.update(
         evaluations=evals,
         distinct_nontrivial=nontrivial,
@@ -1094,6 +1136,8 @@ def run(ctx):
         cases_variable_values=by_kind["env"],
         cases_keyword_words=by_kind["kw"],
         cases_multiline_literals=by_kind["ml"],
+        cases_tilde_words=by_kind["tw"],
+        tilde_words=len(tw_values),
         multiline_literals=len(ml_values),
         keyword_words=len(kw_values),
         variable_values=len(env_values),
@@ -1122,7 +1166,7 @@ def replay(rec):
         _PROBE_SET |= _subsequences(p)
     tables.ensure_tables()
     _init_worker()
-    value = tuple(case["value"]) if case["form"] in ENV_FORMS else KW(case["value"]) if case.get("value_kind") == "kw" else ML(case["value"]) if case.get("value_kind") == "ml" else case["value"]
+    value = tuple(case["value"]) if case["form"] in ENV_FORMS else KW(case["value"]) if case.get("value_kind") == "kw" else ML(case["value"]) if case.get("value_kind") == "ml" else TW(case["value"]) if case.get("value_kind") == "tw" else case["value"]
     r = run_case(case["form"], case["pos"], case["expand_env_vars"], value, tuple(case["paths"]))
     if r is None:
         print("case is skipped by the generator now")
